@@ -5,9 +5,11 @@ cd "$(dirname "$0")"
 command -v java >/dev/null
 test -f /opt/veriftools/tla/tla2tools.jar
 /venv/bin/python -c "import sys; sys.path.insert(0,'harness'); import impl" 
+jt=$(mktemp -d /tmp/verif_setup_XXXXXX)      # SANY unpacks its standard modules into java.io.tmpdir
+trap 'rm -rf "$jt"' EXIT
 for d in spec/mc/*/; do
   n=$(basename "$d")
-  (cd "$d" && java -DTLA-Library=/verif/spec -cp /opt/veriftools/tla/tla2tools.jar:/opt/veriftools/tla/CommunityModules-deps.jar tla2sany.SANY "MC_$n.tla" >/tmp/sany_$n.log 2>&1) || { cat /tmp/sany_$n.log; exit 1; }
+  (cd "$d" && java -Djava.io.tmpdir="$jt" -DTLA-Library=/verif/spec -cp /opt/veriftools/tla/tla2tools.jar:/opt/veriftools/tla/CommunityModules-deps.jar tla2sany.SANY "MC_$n.tla" >/tmp/sany_$n.log 2>&1) || { cat /tmp/sany_$n.log; exit 1; }
   rm -f /tmp/sany_$n.log
 done
 echo "setup ok"
